@@ -76,3 +76,10 @@ Fixpoint vseg_go (twice : bool) (ancs : list (N * list N)) (sl : vst * vlog) (se
   | [ops] => vrun twice ancs sl ops
   | ops :: rest => let '(st, lg) := vrun twice ancs sl ops in vseg_go twice ancs (vreplay lg, lg) rest
   end.
+
+(* two (family, logs) pairs a client cannot tell apart: the same logs, and version by version the
+   same label for every supervoxel and the same split records *)
+Definition vsame (a b : vst * vlog) : Prop :=
+  snd a = snd b /\
+  forall v, (forall k, aget k (mp_map (vget (fst a) v)) = aget k (mp_map (vget (fst b) v))) /\
+            mp_splits (vget (fst a) v) = mp_splits (vget (fst b) v).
